@@ -250,6 +250,10 @@ func c03verify(c *Ctx, rule, fnName, digestFn, payloadField string, isHeartbeat 
 			if g != nil && t == "geth/crypto.Keccak256Hash([append(*"+facts.Term(g)+",b)])" {
 				okShape = true
 			}
+			// the hash streams its arguments: Keccak256Hash(prefix, b) hashes the same bytes
+			if g != nil && t == "geth/crypto.Keccak256Hash([*"+facts.Term(g)+",b])" {
+				okShape = true
+			}
 		}
 	})
 	R.Check("C03.domain", "C03.domain/"+digestFn+"/shape", c.rel(p.Pos(dg.Pos())), digestFn+" = Keccak256Hash(append(<prefix variable>, payload...))", okShape, "digest is not the keccak of prefix||payload")
